@@ -12,7 +12,7 @@ import warnings
 
 from . import core
 
-SECTOR_CLASSES = ('ConsolidatedGovernment', 'GoldStandardGovernment', 'Treasury', 'CentralBank',
+SECTOR_CLASSES = ('FixedMarginBusinessSub', 'ConsolidatedGovernment', 'GoldStandardGovernment', 'Treasury', 'CentralBank',
                   'GoldStandardCentralBank', 'Household', 'HouseholdWithExpectations', 'Capitalists',
                   'FixedMarginBusiness', 'FixedMarginBusinessMultiOutput', 'TaxFlow', 'Market',
                   'MoneyMarket', 'DepositMarket', 'Sector')
@@ -117,13 +117,20 @@ def exec_op(sess, op, index=0):
                         kw['consumption_good_name'] = op['good']
                     o = D.Capitalists(c, op['code'], ln, alpha_income=op.get('alpha_income', 0.7),
                                       alpha_fin=op.get('alpha_fin', 0.3), **kw)
-                elif name == 'FixedMarginBusiness':
+                elif name in ('FixedMarginBusiness', 'FixedMarginBusinessSub'):
                     kw = {}
                     if op.get('labour') is not None:
                         kw['labour_input_name'] = op['labour']
                     if op.get('output') is not None:
                         kw['output_name'] = op['output']
-                    o = D.FixedMarginBusiness(c, op['code'], ln, profit_margin=op.get('margin', 0.0), **kw)
+                    cls_ = D.FixedMarginBusiness
+                    if name == 'FixedMarginBusinessSub':
+                        # a user-defined subclass, as the bundled investment examples do (BusinessWithInvestment)
+                        cls_ = sess.H.get('class:FMBsub')
+                        if cls_ is None:
+                            cls_ = type('BusinessWithInvestment', (D.FixedMarginBusiness,), {})
+                            sess.H['class:FMBsub'] = cls_
+                    o = cls_(c, op['code'], ln, profit_margin=op.get('margin', 0.0), **kw)
                 elif name == 'FixedMarginBusinessMultiOutput':
                     if not need('markets'):
                         return 'noop'
@@ -225,6 +232,16 @@ def exec_op(sess, op, index=0):
                 if op.get('solver'):
                     o = o.EquationSolver
                 setattr(o, op['attr'], op['value'] if op.get('ref') is None else H.get(op['ref']))
+            elif name == 'AddVariableEq':
+                if not need('sector'):
+                    return 'noop'
+                # one Equation object (owned by the caller) may be registered in several sectors
+                from sfc_models.equation import Equation
+                eqo = sess.H.get('eqobj:' + op['eqobj'])
+                if eqo is None:
+                    eqo = Equation(op['text'])
+                    sess.H['eqobj:' + op['eqobj']] = eqo
+                H[op['sector']].AddVariableFromEquation(eqo)
             elif name == 'SetGoldPurchases':
                 if not need('gold', 'sector'):
                     return 'noop'
@@ -296,8 +313,13 @@ def run_main(sess, op):
         sess.pre_vars[h] = list(s.GetVariables())
     import contextlib
     import io
+    patch = contextlib.nullcontext()
+    if op.get('base_file_name') is not None and not getattr(sess, 'fs_patched', False):
+        # logging to files goes through a private fault-free SimFS unless the caller installed its own seam
+        from .simfs import SimFS, SeamPatch
+        patch = SeamPatch(SimFS(()))
     try:
-        with warnings.catch_warnings(), contextlib.redirect_stdout(io.StringIO()):
+        with warnings.catch_warnings(), contextlib.redirect_stdout(io.StringIO()), patch:
             warnings.simplefilter('ignore')
             if op.get('base_file_name') is not None:
                 txt = m.main(op['base_file_name'])
